@@ -138,11 +138,11 @@ Fixpoint dict_set {B} (k : nat) (v : B) (l : list (nat * B)) : list (nat * B) :=
   | (k', v') :: r => if Nat.eqb k k' then (k, v) :: r else (k', v') :: dict_set k v r
   end.
 
-(* lines 2018-2023: the absorbing end state: end_state = len(transitions); transitions[end_state] = ...;
+(* the absorbing end state: end_state = len(labels) (= the number of trie nodes: an unused label, also when
+   nodes behind a symbol outside the alphabet were never visited); transitions[end_state] = ...;
    for state in final_states: transitions[state] = ...; final_states.add(end_state) *)
-Definition add_end (syms : list nat) (rows : list (nat * list (nat * nat))) (finals : list nat)
+Definition add_end (syms : list nat) (e : nat) (rows : list (nat * list (nat * nat))) (finals : list nat)
   : list (nat * list (nat * nat)) * list nat :=
-  let e := length rows in
   let erow := map (fun a => (a, e)) syms in
   (fold_left (fun rs q => dict_set q erow rs) finals (dict_set e erow rows),
    if memb e finals then finals else finals ++ [e]).
@@ -153,7 +153,7 @@ Definition ac_dfa (syms : list nat) (pats : list word) (contains ms : bool) : re
   else
     bind (ac_trie pats) (fun nodes =>
     bind (goto_bfs syms nodes (S (length nodes)) [0] [] []) (fun rf =>
-      let (rows, finals) := if ms then rf else add_end syms (fst rf) (snd rf) in
+      let (rows, finals) := if ms then rf else add_end syms (length nodes) (fst rf) (snd rf) in
       let states := map fst rows in
       Ok (mkdfa states syms rows 0
                 (if contains then finals else filter (fun q => negb (memb q finals)) states) false))).
